@@ -11,14 +11,16 @@ from harness.oracle.epsilon_table import wynn_column_values
 
 MODULE = 'Ndt.Props.C14'
 THEOREMS = ['Ndt.sweepAux_diag', 'Ndt.epsStep_diag', 'Ndt.epsRun_diag', 'Ndt.epsalg_returns_even_order',
-            'Ndt.epsalg_one_transient', 'Ndt.dea_abserr_floor', 'Ndt.dea_abserr_floor_every_call', 'Ndt.deaCall_first', 'Ndt.pyMax_ge_right']
+            'Ndt.epsalg_one_transient', 'Ndt.dea_abserr_floor', 'Ndt.dea_abserr_floor_every_call', 'Ndt.deaCall_first', 'Ndt.pyMax_ge_right',
+            'Ndt.deaIter_ok', 'Ndt.deaLoopRun_ok', 'Ndt.shiftTable_ok', 'Ndt.updateRes3la_ok', 'Ndt.deaPost_ok', 'Ndt.deaCall_ok',
+            'Ndt.deaInit_inv', 'Ndt.dea_total', 'Ndt.dea_never_fails']
 EPS = 2.0 ** -52
 HUGE = float(np.finfo(float).max)
 ENVELOPE = 64.0
 
 
 def gen_seq(rng, maxlen=200):
-    kind = rng.choice(['geo', 'geo', 'geo-dyadic', 'random', 'const-tail', 'alt', 'slow'])
+    kind = rng.choice(['geo', 'geo', 'geo-dyadic', 'random', 'const-tail', 'alt', 'slow', 'small-alphabet'])
     n = rng.choice([rng.randint(1, 12), rng.randint(1, 40), rng.randint(1, maxlen)])
     if kind == 'geo':
         k = rng.randint(1, 4)
@@ -35,6 +37,10 @@ def gen_seq(rng, maxlen=200):
         return kind, [L + sum(ai * qi ** t for ai, qi in zip(a, q)) for t in range(n)], (L, k)
     if kind == 'random':
         return kind, [rng.uniform(-1, 1) for _ in range(n)], None
+    if kind == 'small-alphabet':
+        # exact zeros, repeats and ties: every comparison of the algorithm can come out as an equality
+        alpha = rng.choice([[0.0, 1.0, -1.0, 0.5], [0.0, 0.0, 1.0], [0.0, 2.0, 0.25, -0.0], [1.0, 1.0, 0.0, 3.0]])
+        return kind, [rng.choice(alpha) for _ in range(min(n, 30))], None
     if kind == 'const-tail':
         m = rng.randint(0, n)
         c = rng.uniform(-3, 3)
